@@ -24,7 +24,7 @@ StagesOf(F) == [i \in 1..5 |-> (Order[i] \in F) \/ (Order[i] \in {"v6", "v4"} /\
 \* line kinds: which sensitive items a line carries (concretized by the harness)
 Kinds == {"blank", "spaces", "plain", "plain-tabs", "pwd", "v4", "v6", "v4-mask", "word", "as", "pwd+v4", "word+as", "v4+as",
           "pwd-looks-like-v4", "word-in-pwd-line", "v6+v4", "crowded",
-          "scrubline", "nodigit-pwd", "v4-mask-zeros"}
+          "scrubline", "nodigit-pwd", "v4-mask-zeros", "pwd-fixed-quoted", "v6-tail", "pwd-reserved-caps"}
 ItemsOf(k) ==
   CASE k = "blank" -> << >> [] k = "spaces" -> << >> [] k = "plain" -> <<"p", "p", "p">> [] k = "plain-tabs" -> <<"p", "p">>
     [] k = "pwd" -> <<"p", "pwd">> [] k = "v4" -> <<"p", "p", "v4">> [] k = "v6" -> <<"p", "p", "v6">>
@@ -35,6 +35,9 @@ ItemsOf(k) ==
     [] k = "scrubline" -> <<"p", "v4", "word", "as", "p", "p", "pwd">>       \* a scrub-mode syntax after other items
     [] k = "nodigit-pwd" -> <<"p", "p", "pwd">>                              \* no digit on the line before the secret stage
     [] k = "v4-mask-zeros" -> <<"p", "v4", "p">>                             \* mask spelled with leading zeros
+    [] k = "pwd-fixed-quoted" -> <<"p", "p", "pwd", "p">>                    \* the SAME quoted secret wherever this kind occurs
+    [] k = "v6-tail" -> <<"p", "p", "v6">>                                   \* IPv6 with a dotted-quad tail
+    [] k = "pwd-reserved-caps" -> <<"p", "p">>                               \* a user reserved word (with capitals) in secret position
 
 Stage(f, items) == [i \in 1..Len(items) |-> IF items[i] = f THEN f \o "!" ELSE items[i]]
 RECURSIVE Apply(_, _, _)
